@@ -11,6 +11,7 @@ pub mod twohop;
 pub mod pack;
 pub mod life;
 pub mod mints;
+pub mod sdk;
 pub mod slots {
     include!(concat!(env!("OUT_DIR"), "/slots.rs"));
     pub fn of(name: &str) -> &'static [&'static str] {
